@@ -426,6 +426,10 @@ def check(case, ctx):
     region = case.region + ("" if case.p["default"] else "/random-params")
     ctx.note("params:" + ("default" if case.p["default"] else "random"))
     long_run = case.region == "hist:long-fast"
+    if not case.p["default"] and int(case.p["seed"]) % 3 == 0:
+        # computed parameters (frequency = 1/np.mean(np.diff(t)), a gain from np.sqrt): NumPy float64 scalars - a subclass of float - instead of literals
+        P = {k: ({kk: (np.float64(vv) if type(vv) is float else vv) for kk, vv in v.items()} if isinstance(v, dict) else v) for k, v in P.items()}
+        ctx.note("params typed as numpy.float64")
     for name, (needs, fn, rep) in SPECS.items():
         if long_run and "g" not in needs:
             continue
